@@ -404,6 +404,7 @@ func c18SchedScenario(readers int, writes int) *mc.Scenario {
 			keys          map[string]uint64
 			err           error
 			thread        string
+			call, ret     int
 		}
 		var reads []*rd
 		var written []struct {
@@ -430,7 +431,9 @@ func c18SchedScenario(readers int, writes int) *mc.Scenario {
 				r := &rd{keys: map[string]uint64{}, thread: vrt.CurName()}
 				r.leaderAtStart = lead.GetCurrentRevision()
 				reads = append(reads, r)
+				r.call = vrt.Steps()
 				resp, err := bs.Range(context.Background(), &proto.RangeRequest{Key: []byte("/r/"), End: []byte("/r0")})
+				r.ret = vrt.Steps()
 				r.err = err
 				if err == nil {
 					r.hdr = resp.Header.GetRevision()
@@ -464,9 +467,17 @@ func c18SchedScenario(readers int, writes int) *mc.Scenario {
 				// the same two mechanisms as in the syncer-level scenarios, seen through a whole node
 				own, did := fetched[r.thread]
 				cls := "other"
+				inFlight := false
+				for _, o := range reads {
+					if _, odid := fetched[o.thread]; o != r && odid && o.call <= r.call && (o.ret == 0 || r.call <= o.ret) {
+						inFlight = true
+					}
+				}
 				switch {
-				case !did:
+				case !did && inFlight:
 					cls = "joined-a-fetch-that-began-before-the-read"
+				case !did:
+					cls = "no-fetch-of-its-own-and-none-in-flight"
 				case own >= r.leaderAtStart:
 					cls = "newer-revision-overwritten-by-a-late-older-one"
 				}
@@ -501,6 +512,7 @@ func c18SyncScenario(readers, advances int) *mc.Scenario {
 		type rd struct {
 			start, served uint64
 			thread        string
+			call, ret     int // steps around the synchronisation call
 		}
 		var reads []*rd
 		vrt.BeginExplore()
@@ -515,7 +527,10 @@ func c18SyncScenario(readers, advances int) *mc.Scenario {
 				r := &rd{thread: vrt.CurName()}
 				reads = append(reads, r)
 				r.start = vatomic.LoadUint64(&leaderRev) // what the leader had committed when the read began
-				if err := rs.SyncReadRevision(); err != nil {
+				r.call = vrt.Steps()
+				err := rs.SyncReadRevision()
+				r.ret = vrt.Steps()
+				if err != nil {
 					r.served = ^uint64(0) // the read fails: allowed
 					return
 				}
@@ -531,9 +546,20 @@ func c18SyncScenario(readers, advances int) *mc.Scenario {
 			if r.served < r.start {
 				own, did := fetched[r.thread]
 				cls := "other"
+				// "joined": the read made no round trip of its own AND another read's synchronisation, which
+				// did make one, was in progress when this one was called (a fetch that had already completed
+				// cannot be joined: reusing its answer is a different defect)
+				inFlight := false
+				for _, o := range reads {
+					if _, odid := fetched[o.thread]; o != r && odid && o.call <= r.call && (o.ret == 0 || r.call <= o.ret) {
+						inFlight = true
+					}
+				}
 				switch {
-				case !did:
+				case !did && inFlight:
 					cls = "joined-a-fetch-that-began-before-the-read"
+				case !did:
+					cls = "no-fetch-of-its-own-and-none-in-flight"
 				case own >= r.start:
 					cls = "newer-revision-overwritten-by-a-late-older-one"
 				}
